@@ -62,6 +62,8 @@ pub use crate::python::Encoder;
 #[cfg(feature = "python")]
 pub use crate::python::raptorq;
 pub use crate::systematic_constants::extended_source_block_symbols;
+#[cfg(all(raptorq_verif, feature = "std"))]
+pub use crate::octets::verif_kernel;
 
 #[cfg(feature = "benchmarking")]
 pub use crate::constraint_matrix::generate_constraint_matrix;
